@@ -201,7 +201,15 @@ def run_life_case(case, res):
         res.violation("C13", "run-vs-step", "run() raised %r where the step loop completed" % (e,), case)
         return
     res.count("run_vs_step_twins")
-    a, b = snap(kind, fresh), snap(kind, runner)
+    # the stepping twin of this comparison is a third simulation that is stepped WITHOUT any inspection call in
+    # between (the twins above are inspected after every step; whether inspections are pure is C16, not C13)
+    stepper = make_sim(kind, cfg)
+    safe_load(stepper, text)
+    init_regs(kind, stepper, case["regs"])
+    k_ = 0
+    while stepper.step() and k_ < case["max_steps"] + 5:
+        k_ += 1
+    a, b = snap(kind, stepper), snap(kind, runner)
     if a != b:
         res.violation("C13", "run-vs-step", "run() and the step loop end in different snapshots: %s" % diff_names(a, b), case)
         return
@@ -210,7 +218,10 @@ def run_life_case(case, res):
         res.count("exit_ecall_terminals")
     if case["terminal"] in ("jump_outside", "soup") and kind != "toy":
         res.count("jump_outside_terminals")
+    base0 = snap(kind, fresh)
     base = snap(kind, fresh)
+    if base0 != base:
+        return  # the inspection functions themselves are not idempotent here: C16's business, nothing to judge for C13
     for i, call in enumerate(case["after_done"]):
         try:
             if call == "step":
@@ -477,7 +488,19 @@ def run_pure_case(case, res):
         burst()
         snaps.append(snapf(a_, rngb.sample(names, len(names))))
         n = 0
-        while not a_.is_done() and n < case["max_steps"]:
+        reload_ = case.get("reload")
+        while n < case["max_steps"]:
+            if reload_ and (n == reload_["at"] or a_.is_done()):
+                # the editor loads another program into the same simulation (which has been inspected)
+                if safe_load(a_, reload_["text"]) is not None:
+                    snaps.append("LOADFAIL")
+                    break
+                init_regs(kind, a_, case["regs"])
+                reload_ = None
+                burst()
+                snaps.append(snapf(a_, rngb.sample(names, len(names))))
+            if a_.is_done():
+                break
             try:
                 if kind == "toy" and pr.random() < 0.5:
                     a_.first_cycle_step()
@@ -536,7 +559,25 @@ def run_pure_case(case, res):
     if not compare("before the first step"):
         return
     n = 0
-    while not b_.is_done() and n < case["max_steps"]:
+    reload_ = case.get("reload")
+    while n < case["max_steps"]:
+        if reload_ and (n == reload_["at"] or b_.is_done()):
+            if safe_load(b_, reload_["text"]) is not None:
+                if not (si[0] < len(snaps) and snaps[si[0]] == "LOADFAIL"):
+                    res.violation("C16", "inspection-impure", "re-loading at step %d fails on the never-inspected twin only" % n, case)
+                    return
+                break
+            init_regs(kind, b_, case["regs"])
+            reload_ = None
+            res.count("reloads_of_inspected_simulation")
+            nt = True
+            if si[0] < len(snaps) and snaps[si[0]] == "LOADFAIL":
+                res.violation("C16", "inspection-impure", "re-loading at step %d fails on the inspected twin only" % n, case)
+                return
+            if not compare("after loading the second program at step %d" % n):
+                return
+        if b_.is_done():
+            break
         m_before = misses()
         try:
             if kind == "toy" and pr.random() < 0.5:
@@ -586,6 +627,8 @@ def gen_pure_case(rng):
                 for a_ in range(1, L_):
                     if rng.random() < 0.6:
                         case["pokes"][str(a_)] = (op_ << 12) | rng.getrandbits(12)
+        elif rng.random() < 0.3:
+            case["reload"] = {"at": rng.choice([0, 1, 3, 8, 10**6]), "text": T.gen_source(rng)["text"]}
         return case
     prog, regs, _ = gen_rv_program(rng, allow_fault=rng.random() < 0.1)
     cfg = {"hz": rng.random() < 0.8, "dcache": rand_cache(rng), "icache": rand_cache(rng, data=False)}
@@ -609,7 +652,11 @@ def gen_pure_case(rng):
         text = "\n".join(lines)
     if rng.random() < 0.4:
         text = ".data\nd0: .word 1, 2, 3\nd1: .string \"abc\"\n.text\n" + text
-    return {"kind": "pure", "sim": kind, "cfg": cfg, "text": text, "regs": regs, "max_steps": 250, "join_step": rng.choice([0, 1, 2, 3, 7, 10**6]), "seed": rng.getrandbits(30)}
+    case = {"kind": "pure", "sim": kind, "cfg": cfg, "text": text, "regs": regs, "max_steps": 250, "join_step": rng.choice([0, 1, 2, 3, 7, 10**6]), "seed": rng.getrandbits(30)}
+    if rng.random() < 0.2:
+        # another program is loaded into the same (inspected) simulation: at once, mid-run, or when the first is done
+        case["reload"] = {"at": rng.choice([0, 1, 2, 5, 12, 10**6]), "text": asm_text(gen_rv_program(rng)[0])}
+    return case
 
 
 def run_case(prop, case, res):
